@@ -218,16 +218,19 @@ class OracleRecorder:
         orig_root, orig_vec = pl.matrix_inverse_root, pl.matrix_eigenvectors
 
         def root(A, root, root_inv_config=None, epsilon=0.0, is_diagonal=False, **kw):
+            rec = {"g": self.cur, "A": _ml(A), "root": float(root), "eps": float(epsilon), "isdiag": bool(is_diagonal), "est": [], "ans": None}
+            self.calls.append(rec)          # a call that raises keeps ans = None (the optimizer falls back to the stored matrix)
             r = orig_root(A=A, root=root, root_inv_config=root_inv_config, epsilon=epsilon, is_diagonal=is_diagonal, **kw)
-            self.calls.append({"g": self.cur, "A": _ml(A), "root": float(root), "eps": float(epsilon), "isdiag": bool(is_diagonal),
-                               "est": [], "ans": _ml(r)})
+            rec["ans"] = _ml(r)
             return r
 
         def vec(A, eigenvectors_estimate=None, eigenvector_computation_config=None, is_diagonal=False, **kw):
+            rec = {"g": self.cur, "A": _ml(A), "root": 0.0, "eps": 0.0, "isdiag": bool(is_diagonal),
+                   "est": _ml(eigenvectors_estimate) if eigenvectors_estimate is not None else [], "ans": None}
+            self.calls.append(rec)
             r = orig_vec(A=A, eigenvectors_estimate=eigenvectors_estimate,
                          eigenvector_computation_config=eigenvector_computation_config, is_diagonal=is_diagonal, **kw)
-            self.calls.append({"g": self.cur, "A": _ml(A), "root": 0.0, "eps": 0.0, "isdiag": bool(is_diagonal),
-                               "est": _ml(eigenvectors_estimate) if eigenvectors_estimate is not None else [], "ans": _ml(r)})
+            rec["ans"] = _ml(r)
             return r
 
         self._patches.append(mock.patch.object(pl, "matrix_inverse_root", root))
@@ -406,9 +409,11 @@ def cstep(rec) -> str:
     """One `step_ok` term for a (step, group) record."""
     per_block, leftover = split_calls(rec)
     ins = []
-    for g, cs in zip(rec["grads"], per_block):
+    for g, cs, b in zip(rec["grads"], per_block, rec["before"]["blocks"]):
         gs = "None" if g is None else f"(Some {cvec(g)})"
-        ins.append(f"(mkI {gs} {cmats([c['ans'] for c in cs])})")
+        # a failed oracle call (ans None) makes the optimizer keep the stored matrix: that is the answer the model is given
+        answers = [c["ans"] if c["ans"] is not None else b["inv"][k] for k, c in enumerate(cs)]
+        ins.append(f"(mkI {gs} {cmats(answers)})")
     qs = []
     for cs in per_block:
         qs.append("[" + ";".join(f"(mkQ {cmat(c['A'])} {fl(c['root'])} {fl(c['eps'])} {coq_bool(c['isdiag'])} {cmat(c['est'])})" for c in cs) + "]")
